@@ -180,6 +180,27 @@ theorem C01_representation_independent_dataset (s s' : Src) (dds0 : Bytes) (t : 
   rw [body, encImpl_eq t d hwf] at this
   exact this
 
+/-- … and for sequences: a lazy source whose records hold the rows `vss` as cells of any forms (numpy scalar / 0-d
+    array of any dtype char of the column's type, Python int/float/bool, `str`, `bytes`), or a structured array read
+    record by record (`recordsOf`), is answered with bytes from which the client decodes exactly those rows; two such
+    sources with the same bytes -/
+theorem C01_representation_independent_sequence (tys : List Ty) (rows rows' : List (List (Bool × Cell)))
+    (vss : List (List Val)) (h : rowsVals? rows = some vss) (h' : rowsVals? rows' = some vss)
+    (hok : ∀ r ∈ rows, ∀ c ∈ r, c.2.ok = true) (hok' : ∀ r ∈ rows', ∀ c ∈ r, c.2.ok = true)
+    (ht : ∀ r ∈ rows, r.map (·.2.ty?) = tys.map some) (ht' : ∀ r ∈ rows', r.map (·.2.ty?) = tys.map some)
+    (hwf : WF (.seq (tys.map fun ty => .base ty [])) (.rows (vss.map fun vs => .tuple (vs.map Data.scalar))) = true) :
+    ∃ bs, encRowsCells tys rows = .ok bs ∧ encRowsCells tys rows' = .ok bs ∧
+      decImpl (.seq (tys.map fun ty => .base ty [])) bs
+        = .ok (.rows (vss.map fun vs => .tuple (vs.map Data.scalar)), []) := by
+  have hw := hwf
+  simp only [WF, Bool.and_eq_true] at hw
+  refine ⟨XdrSpec.enc (.seq (tys.map fun ty => .base ty [])) (.rows (vss.map fun vs => .tuple (vs.map Data.scalar))),
+    ?_, ?_, ?_⟩
+  · rw [encRowsCells_eq tys rows vss h hok ht hw.1.2 hw.2]; simp [XdrSpec.enc]
+  · rw [encRowsCells_eq tys rows' vss h' hok' ht' hw.1.2 hw.2]; simp [XdrSpec.enc]
+  · have := decImpl_enc _ _ [] hwf
+    rwa [List.append_nil] at this
+
 /-! ### why the open finding `C01.lazy_type_peek` is not a local repair
 
 A lazy source (`IterData`) carries no declaration: `IterData.dtype` reads the column types off the first record.
@@ -240,6 +261,13 @@ example : ∃ bs, encArr exRepA = .ok bs ∧ encArr exRepB = .ok bs ∧
     decImpl (.base .int16 [3]) bs = .ok (.array [.num 1, .num (-2), .num 3], []) :=
   C01_representation_independent exRepA exRepB .int16 [3] _ ⟨by decide, by decide, by rfl⟩
     ⟨by decide, by decide, by rfl⟩ (by decide)
+/-- a record (Int16, String) as (int8 scalar, `bytes`) and as (big-endian int16 0-d array, `str`) -/
+example : ∃ bs, encRowsCells [.int16, .string] [[(false, .num .b (-3)), (false, .bstr [97])]] = .ok bs ∧
+    encRowsCells [.int16, .string] [[(true, .num .h (-3)), (false, .ustr [97])]] = .ok bs ∧
+    decImpl (.seq [.base .int16 [], .base .string []]) bs
+      = .ok (.rows [.tuple [.scalar (.num (-3)), .scalar (.str [97])]], []) :=
+  C01_representation_independent_sequence [.int16, .string] _ _ [[.num (-3), .str [97]]] (by decide) (by decide)
+    (by decide) (by decide) (by decide) (by decide) (by decide)
 example : WF (.seq [.base .int32 []]) (.rows []) = true ∧ WF (.seq [.base .string [], .base .byte []]) (.rows []) = true := by
   decide
 example : (Src.struct [.arr exRepA, .val (.base .string []) (.scalar (.str []))]).view?
